@@ -286,6 +286,23 @@ func (s *Sim) logf(f string, a ...any) {
 // Note appends a free-form line to the schedule log.
 func (s *Sim) Note(f string, a ...any) { s.logf(f, a...) }
 
+// Wrap breaks a long text into lines of at most ~3000 characters (at spaces): failure messages end up as comment lines of
+// rapid's fail file, which rapid reads back with a 64 KiB line limit.
+func Wrap(text string) string {
+	var b strings.Builder
+	for len(text) > 3000 {
+		k := strings.LastIndexByte(text[:3000], ' ')
+		if k <= 0 {
+			k = 3000
+		}
+		b.WriteString(text[:k])
+		b.WriteString("\n  ")
+		text = text[k:]
+	}
+	b.WriteString(text)
+	return b.String()
+}
+
 // Descriptor returns the readable schedule.
 func (s *Sim) Descriptor() string { return strings.Join(s.Log, " ") }
 
@@ -982,6 +999,11 @@ func (c *ctl) receiveCert(qc *lib.QuorumCertificate, via string) bool {
 	rec := &CommitRec{Replica: c.i, Height: qc.Header.Height, BlockHash: qc.BlockHash, ResultsHash: qc.ResultsHash, QC: qc, Via: via, Step: s.Step}
 	r.Committed = rec
 	s.Commits = append(s.Commits, rec)
+	if via == "gossip" {
+		// Controller.ListenForBlock re-gossips a certificate it accepted from a peer (GossipBlock after HandlePeerBlock): the
+		// replica's own, owed, copy exists on the network from now on - whoever the first sender was
+		s.addBlock(c.i, qc)
+	}
 	return true
 }
 
